@@ -1,5 +1,6 @@
 import O4.Lemmas.Obfs4Chunk
 import O4.Lemmas.Obfs4Tx
+import O4.Generated.Facts.Obfs4
 /-!
 # C01 — obfs4 delivers the exact byte stream under any segmentation; every byte written becomes
 readable without further traffic, including data arriving in the same segment as the handshake
@@ -369,6 +370,28 @@ example :
   decide +kernel
 
 /-! ## 8. the toy link crypto of the examples satisfies the crypto hypothesis -/
+
+/-- **the Go reader and writer share no connection state but the underlying conn and the
+    (mutex-protected) distributions**: the receiver fields `obfs4Conn.Read` touches (transitively,
+    through `readPackets`/`processReceiveBuffer`) and those `obfs4Conn.Write` touches (through
+    `makePacket`/`padBurst`) are extracted from the Go source on every run
+    (`O4/Generated/Facts/Obfs4.lean`, go/ast); their intersection is `Conn`, `lenDist`, `iatDist`.
+    So one reader goroutine and one writer goroutine per endpoint interleave without touching
+    each other's framing state — the model's `Endpoint` (reader: `rx`, writer: `txK`) is faithful
+    in keeping them apart.  A change that makes `Write` touch `receiveBuffer`/`decoder` (or `Read`
+    the `encoder`) breaks this proof. -/
+theorem reader_writer_state_disjoint :
+    ∀ f, f ∈ O4.Facts.Obfs4.obfs4Conn_Read_fields → f ∈ O4.Facts.Obfs4.obfs4Conn_Write_fields →
+      f ∈ ["Conn", "lenDist", "iatDist"] := by decide
+
+/-- … and the fields that carry a direction's framing state are private to their side -/
+theorem framing_state_private :
+    "encoder" ∉ O4.Facts.Obfs4.obfs4Conn_Read_fields ∧
+    "decoder" ∉ O4.Facts.Obfs4.obfs4Conn_Write_fields ∧
+    "receiveBuffer" ∉ O4.Facts.Obfs4.obfs4Conn_Write_fields ∧
+    "receiveDecodedBuffer" ∉ O4.Facts.Obfs4.obfs4Conn_Write_fields ∧
+    "decoder" ∈ O4.Facts.Obfs4.obfs4Conn_Read_fields ∧
+    "encoder" ∈ O4.Facts.Obfs4.obfs4Conn_Write_fields := by decide
 
 theorem toyCrypto_ok : CryptoOK toyCrypto := Obfs4.toyCrypto_ok
 
